@@ -649,6 +649,14 @@ unsigned cmb_random_loaded_dice(const unsigned n, const double *pa)
         }
     }
 
+    if (ui == n) {
+        /* The probabilities sum to slightly less than one (within tolerance)
+         * and x fell beyond the last step: give it to the last possible index */
+        do {
+            ui--;
+        } while ((ui > 0u) && (pa[ui] <= 0.0));
+    }
+
     cmb_assert_debug(ui < n);
     return ui;
 }
